@@ -668,25 +668,25 @@ def bfs(pmap, seeds, depth, devbound, maxa, maxdec, label, patterns=None):
 def stage_default(pmap, tier, seed):
     I4DEPTH[0] = 2 if tier == 'thorough' else 1
     if tier == 'thorough':
-        return bfs(pmap, SEEDS_THOROUGH, 4, 0, 5, 2, 'dev0')
+        return bfs(pmap, SEEDS_QUICK, 4, 0, 4, 1, 'dev0')
     return bfs(pmap, SEEDS_QUICK, 3, 0, 4, 1, 'dev0')
 
 
 def stage_dev1(pmap, tier, seed):
     if tier == 'thorough':
-        return bfs(pmap, SEEDS_THOROUGH, 3, 1, 5, 2, 'dev1')
+        return bfs(pmap, SEEDS_THOROUGH, 3, 1, 4, 1, 'dev1', patterns=PATTERNS_QUICK)
     return bfs(pmap, SEEDS_QUICK, 2, 1, 4, 1, 'dev1', patterns=PATTERNS_QUICK)
 
 
 def stage_dev2(pmap, tier, seed):
-    return bfs(pmap, SEEDS_QUICK, 3, 2, 4, 1, 'dev2')
+    return bfs(pmap, ['CC', 'CCO', 'C1CC1', 'CC(N)O@', 'CN~Cu'], 3, 2, 4, 1, 'dev2', patterns=['ALL', 'NONE', 'ONE:str', 'ONE:sssr', 'ONE:atoms_order', 'ONE:connected_components'])
 
 
 def plan(tier, seed):
     if tier == 'thorough':
-        return [Stage('BFS default reads depth 4', stage_default, None, 'all histories <=4 events, <=5 atoms, <=2 decorated atoms, all caches read after every event'),
-                Stage('BFS <=1 read deviation depth 3', stage_dev1, None, 'all histories <=3 events with <=1 non-default read pattern (reversed/none/exactly-one-of-12)'),
-                Stage('BFS <=2 read deviations depth 3', stage_dev2, None, 'all histories <=3 events, <=4 atoms, with <=2 non-default read patterns')]
+        return [Stage('BFS default reads depth 4', stage_default, None, 'all histories <=4 events, <=4 atoms, <=1 decorated atom, all caches read after every event'),
+                Stage('BFS <=1 read deviation depth 3', stage_dev1, None, 'all histories <=3 events, 11 seeds, with <=1 non-default read pattern (none/exactly-one-of-9)'),
+                Stage('BFS <=2 read deviations depth 3', stage_dev2, None, 'all histories <=3 events on 5 seeds with <=2 non-default read patterns (none / one of str, sssr, atoms_order, components)')]
     return [Stage('BFS default reads depth 3', stage_default, None, 'all histories <=3 events, <=4 atoms, <=1 decorated atom, all caches read after every event'),
             Stage('BFS <=1 read deviation depth 2', stage_dev1, None, 'all histories <=2 events, <=4 atoms, with <=1 non-default read pattern (none/exactly-one-of-9)')]
 
